@@ -181,7 +181,19 @@ def sweep_programs(scan, intro):
         if e['kind'] == 'unit_system': ty, hdr = 'PhQ::UnitSystem', ['PhQ/UnitSystem.hpp']
         elif e['kind'] == 'model_type': ty, hdr = 'PhQ::ConstitutiveModel::Type', ['PhQ/ConstitutiveModel.hpp']
         else: continue
-        for sp, _ in e.get('spellings', []):
+        table = [sp for sp, _ in e.get('spellings', [])]
+        # also the same spellings with every separator replaced by each of the others: a parser may accept them without listing them (the probe only
+        # compares the answer before main() with the answer inside main(), so a variant that is not accepted at all is harmless)
+        seps = ['·', '-', '*', ' ', ', ']
+        extra = []
+        for sp in table:
+            parts = [sp]
+            for q in seps: parts = [y for x in parts for y in x.split(q)]
+            if len(parts) > 1:
+                for q in seps:
+                    v = q.join(parts)
+                    if v not in table and v not in extra: extra.append(v)
+        for sp in table + extra:
             try: sp.encode('utf-8')
             except Exception: continue
             if '\ufffd' in sp: continue
